@@ -104,6 +104,7 @@ type History struct {
 	Fifo       int            `json:"fifo"`
 	Off        int64          `json:"off"`
 	Expect     []int64        `json:"expect"` // processes that must decide (timely schedules)
+	Byz        []int64        `json:"byz"`    // members played by the scripted adversary (cluster-byz)
 	CmpMix     bool           `json:"cmpmix"` // Compare verdicts other than ok were scripted
 	Events     []Ev           `json:"events"`
 	Trace      []string       `json:"trace"` // "(pid, label)" Coq terms, global order
@@ -441,15 +442,253 @@ func genClusterRandom(t *testing.T, r *rand.Rand, h *History) {
 	})
 }
 
+// genClusterByz: n real honest processes minus f members played by a scripted Byzantine adversary.  The adversary
+// sees every honest broadcast and may send, at any time, to any honest member, messages assembled from its own
+// identities (arbitrary content) and from parts honest members really broadcast: equivocating proposals when it
+// leads a round, votes for several values, round changes with forged or borrowed prepared-claims, replays of old
+// honest messages (whole or cross-assembled), DECIDED with mixed commits.  Exactly the adversary of coq/Qbft/Net.v.
+func genClusterByz(t *testing.T, r *rand.Rand, h *History) {
+	h.Nodes = int64(4 + r.Intn(4))
+	h.Off = int64(r.Intn(8))
+	h.Fifo = 100
+	n := h.Nodes
+	f := (n - 1) / 3
+	q := (2*n + 2) / 3
+	isByz := map[int64]bool{}
+	for _, x := range r.Perm(int(n))[:f] {
+		isByz[int64(x)] = true
+		h.Byz = append(h.Byz, int64(x))
+	}
+	var byzIDs, honIDs []int64
+	for i := int64(0); i < n; i++ {
+		if isByz[i] {
+			byzIDs = append(byzIDs, i)
+		} else {
+			honIDs = append(honIDs, i)
+		}
+	}
+	vals := []int64{21, 22}
+	inBubble(t, h, func(c *cluster) {
+		var pool []flight
+		var seen []M // honest broadcasts so far (with the justification they were sent with)
+		fan := func(p *proc) {
+			for _, m := range p.bcasts {
+				seen = append(seen, m)
+				for _, i := range honIDs {
+					pool = append(pool, flight{to: i, m: m})
+				}
+			}
+			p.bcasts = nil
+		}
+		partsOf := func(t int64, pred func(M) bool) []M {
+			var out []M
+			for _, m := range seen {
+				mm := m
+				mm.J = nil
+				if mm.T == t && pred(mm) {
+					out = append(out, mm)
+				}
+				for _, j := range m.J {
+					if j.T == t && pred(j) {
+						out = append(out, j)
+					}
+				}
+			}
+			return out
+		}
+		uniqBySrc := func(ms []M) []M {
+			got := map[int64]bool{}
+			var out []M
+			for _, m := range ms {
+				if !got[m.Src] {
+					got[m.Src] = true
+					out = append(out, m)
+				}
+			}
+			return out
+		}
+		maxRound := func() int64 {
+			mr := int64(1)
+			for _, i := range honIDs {
+				if c.ps[i].round > mr {
+					mr = c.ps[i].round
+				}
+			}
+			return mr
+		}
+		byz := func() int64 { return byzIDs[r.Intn(len(byzIDs))] }
+		hon := func() *proc { return c.ps[honIDs[r.Intn(len(honIDs))]] }
+		// a justification for PRE-PREPARE(rd): honest round changes of that round really sent, topped up with Byzantine ones
+		qrcFor := func(rd int64, claimPr, claimPv int64) []M {
+			rcs := uniqBySrc(partsOf(4, func(m M) bool { return m.Rnd == rd }))
+			r.Shuffle(len(rcs), func(i, j int) { rcs[i], rcs[j] = rcs[j], rcs[i] })
+			var out []M
+			for _, b := range byzIDs {
+				out = append(out, M{T: 4, Src: b, Rnd: rd, PR: claimPr, PV: claimPv})
+			}
+			for _, m := range rcs {
+				if int64(len(out)) >= q {
+					break
+				}
+				out = append(out, m)
+			}
+			if claimPr > 0 {
+				ps := uniqBySrc(partsOf(2, func(m M) bool { return m.Rnd == claimPr && m.Val == claimPv }))
+				for _, b := range byzIDs {
+					out = append(out, M{T: 2, Src: b, Rnd: claimPr, Val: claimPv})
+				}
+				out = append(out, ps...)
+			}
+			return out
+		}
+		attack := func() {
+			rd := maxRound()
+			if r.Intn(4) == 0 && rd > 1 {
+				rd -= int64(r.Intn(2))
+			}
+			if r.Intn(6) == 0 {
+				rd++
+			}
+			var m M
+			switch r.Intn(8) {
+			case 0, 1: // proposal (equivocating over time: another value each call) from a Byzantine leader, or forged for an honest one's round if Byzantine leads
+				m = M{T: 1, Src: c.leader(rd), Rnd: rd, Val: vals[r.Intn(2)]}
+				if !isByz[m.Src] {
+					m.Src = byz()
+				}
+				if rd > 1 {
+					if r.Intn(2) == 0 {
+						m.J = qrcFor(rd, 0, 0)
+					} else {
+						pr := 1 + int64(r.Intn(int(rd)))
+						m.J = qrcFor(rd, pr, m.Val)
+					}
+				}
+			case 2: // vote for several values
+				m = M{T: int64(2 + r.Intn(2)), Src: byz(), Rnd: rd, Val: vals[r.Intn(2)]}
+			case 3: // round change with a forged / borrowed prepared claim
+				m = M{T: 4, Src: byz(), Rnd: rd + int64(r.Intn(2))}
+				if r.Intn(2) == 0 && rd > 1 {
+					pr := 1 + int64(r.Intn(int(rd)))
+					pv := vals[r.Intn(2)]
+					m.PR, m.PV = pr, pv
+					m.J = uniqBySrc(partsOf(2, func(x M) bool { return x.Rnd == pr && x.Val == pv }))
+					for _, b := range byzIDs {
+						m.J = append(m.J, M{T: 2, Src: b, Rnd: pr, Val: pv})
+					}
+				}
+			case 4: // replay of an old honest message, whole
+				if len(seen) == 0 {
+					return
+				}
+				m = seen[r.Intn(len(seen))]
+			case 5: // cross-assembly: an honest main part with another message's justification
+				if len(seen) < 2 {
+					return
+				}
+				m = seen[r.Intn(len(seen))]
+				m.J = seen[r.Intn(len(seen))].J
+			case 6: // DECIDED assembled from honest commits plus Byzantine ones, possibly mixed
+				v := vals[r.Intn(2)]
+				cs := uniqBySrc(partsOf(3, func(x M) bool { return x.Rnd == rd && (x.Val == v || r.Intn(4) == 0) }))
+				m = M{T: 5, Src: byz(), Rnd: rd, Val: v, J: cs}
+				for _, b := range byzIDs {
+					m.J = append(m.J, M{T: 3, Src: b, Rnd: rd, Val: v})
+				}
+			default: // a Byzantine commit / prepare pair completing somebody's quorum for the value they already prepared
+				m = M{T: 3, Src: byz(), Rnd: rd, Val: vals[r.Intn(2)]}
+			}
+			// to one honest member or to several
+			k := 1 + r.Intn(len(honIDs))
+			for _, i := range r.Perm(len(honIDs))[:k] {
+				pool = append(pool, flight{to: honIDs[i], m: m})
+			}
+		}
+		inputs := map[int64]int64{}
+		for _, i := range honIDs {
+			inputs[i] = vals[r.Intn(2)]
+		}
+		toP := 1 + r.Intn(5)
+		atkP := 4 + r.Intn(12)
+		maxSteps := 100 + int(n)*110
+		for step := 0; step < maxSteps; step++ {
+			var unstarted, noInput, canTO []*proc
+			allDone := true
+			for _, i := range honIDs {
+				p := c.ps[i]
+				if !p.started {
+					unstarted = append(unstarted, p)
+					allDone = false
+					continue
+				}
+				if p.alive() && !p.hasIn {
+					noInput = append(noInput, p)
+				}
+				if p.canTimeout() {
+					canTO = append(canTO, p)
+					allDone = false
+				}
+			}
+			var deliverable []int
+			for i, fl := range pool {
+				if c.ps[fl.to].alive() {
+					deliverable = append(deliverable, i)
+				}
+			}
+			if allDone && len(deliverable) == 0 {
+				break
+			}
+			x := r.Intn(100)
+			switch {
+			case len(unstarted) > 0 && (x < 30 || step < 2):
+				c.start(unstarted[r.Intn(len(unstarted))])
+			case len(noInput) > 0 && x < 45:
+				p := noInput[r.Intn(len(noInput))]
+				c.giveInput(p, inputs[p.id])
+				fan(p)
+			case x < 45+atkP:
+				attack()
+			case len(canTO) > 0 && (x < 45+atkP+toP && len(deliverable) < 4*int(n) || len(deliverable) == 0):
+				p := canTO[r.Intn(len(canTO))]
+				c.timeout(p)
+				fan(p)
+			case len(deliverable) > 0:
+				k := deliverable[r.Intn(len(deliverable))]
+				fl := pool[k]
+				if r.Intn(20) > 0 { // mostly consume; sometimes deliver again later
+					pool = append(pool[:k], pool[k+1:]...)
+				}
+				p := c.ps[fl.to]
+				c.deliver(p, fl.m, "CmpOk")
+				fan(p)
+			}
+		}
+		_ = hon
+	})
+}
+
 // genClusterTimely: at most f processes crash (possibly half-way through a broadcast) or never start;
 // every other process has its input; all messages between running processes are delivered (any order)
 // before any timer fires; when the network is quiet all running undecided processes time out.
-func genClusterTimely(t *testing.T, r *rand.Rand, h *History) {
+// timelyEnum fixes the crash pattern of a timely schedule: member Crash stops after At own events (0 = never starts)
+// and each of its in-flight messages to destination d is lost iff bit d of Mask is set.
+type timelyEnum struct {
+	Crash int64
+	At    int
+	Mask  int
+}
+
+func genClusterTimely(t *testing.T, r *rand.Rand, h *History) { genClusterTimelyP(t, r, h, nil) }
+
+func genClusterTimelyP(t *testing.T, r *rand.Rand, h *History, en *timelyEnum) {
 	h.Nodes = int64(1 + r.Intn(7))
 	if r.Intn(3) > 0 {
 		h.Nodes = int64(4 + r.Intn(4))
 	}
 	h.Off = int64(r.Intn(8))
+	if en != nil {
+		h.Nodes, h.Off = 4, 0
+	}
 	h.Fifo = 100
 	n := h.Nodes
 	f := (n - 1) / 3
@@ -466,6 +705,9 @@ func genClusterTimely(t *testing.T, r *rand.Rand, h *History) {
 	crashAt := map[int64]int{} // process -> number of own events after which it stops
 	for i := int64(0); i < nFaulty; i++ {
 		crashAt[int64(perm[i])] = r.Intn(1 + r.Intn(3+r.Intn(int(4*n)))) // 0 = never starts; small = early
+	}
+	if en != nil {
+		crashAt = map[int64]int{en.Crash: en.At}
 	}
 	sameVal := r.Intn(3) == 0
 	inBubble(t, h, func(c *cluster) {
@@ -485,7 +727,7 @@ func genClusterTimely(t *testing.T, r *rand.Rand, h *History) {
 				// partial broadcast: each in-flight message of the crashed process is lost with probability 1/2
 				var keep []flight
 				for _, fl := range pool {
-					if fl.m.Src == p.id && r.Intn(2) == 0 {
+					if fl.m.Src == p.id && (en == nil && r.Intn(2) == 0 || en != nil && en.Mask&(1<<uint(fl.to)) != 0) {
 						continue
 					}
 					keep = append(keep, fl)
@@ -1038,7 +1280,7 @@ func TestGen(t *testing.T) {
 		if err != nil {
 			t.Fatal(err)
 		}
-		h := History{ID: 0, Kind: "replay", Nodes: replay.Nodes, Fifo: replay.Fifo, Off: replay.Off, Expect: replay.Expect, CmpMix: replay.CmpMix}
+		h := History{ID: 0, Kind: "replay", Nodes: replay.Nodes, Fifo: replay.Fifo, Off: replay.Off, Expect: replay.Expect, CmpMix: replay.CmpMix, Byz: replay.Byz}
 		replayEvents(t, &h, replay.Events)
 		if err := hx.WriteJSON("qbft_traces.json", []History{h}); err != nil {
 			t.Fatal(err)
@@ -1048,6 +1290,22 @@ func TestGen(t *testing.T) {
 
 	n := hx.IntEnv("VERIF_N", 400)
 	var hs []History
+	if hx.IntEnv("VERIF_ENUM", 0) == 1 {
+		// exhaustive crash patterns for n = 4 (f = 1): crashed member x crash point x subset of recipients that still
+		// get its in-flight messages; delivery order random per history
+		for crash := int64(0); crash < 4; crash++ {
+			for at := 0; at <= 12; at++ {
+				for mask := 0; mask < 16; mask++ {
+					h := History{ID: len(hs), Kind: "cluster-timely"}
+					r := rand.New(rand.NewSource(hx.Seed()*1_000_003 + int64(len(hs)))) //nolint:gosec
+					genClusterTimelyP(t, r, &h, &timelyEnum{Crash: crash, At: at, Mask: mask})
+					h.Stats["timely:enumerated"]++
+					hs = append(hs, h)
+				}
+			}
+		}
+		n = 0
+	}
 	for len(hs) < n {
 		h := History{ID: len(hs)}
 		// one generator per history, derived from (VERIF_SEED, id): Go's map-order nondeterminism inside
@@ -1060,6 +1318,9 @@ func TestGen(t *testing.T) {
 		case x < 5:
 			h.Kind = "cluster-timely"
 			genClusterTimely(t, r, &h)
+		case x < 6:
+			h.Kind = "cluster-byz"
+			genClusterByz(t, r, &h)
 		default:
 			tmpl := r.Intn(12) // 0..6, 8 = templates; 7, 9.. = soup
 			if tmpl == 7 || tmpl > 8 {
@@ -1110,4 +1371,80 @@ func TestGen(t *testing.T) {
 		t.Logf("%s=%d", k, agg[k])
 	}
 	_ = nonTrivial
+}
+
+// TestRefute replays, against the real qbft.Run, the documented negative result of C02: if Definition.Compare may
+// answer differently for the same (process, value) at different times, a Byzantine leader breaks agreement through the
+// compareFailureRound+1 shortcut of isJustifiedPrePrepare.  n = 4, Byzantine member 2 (leader of round 3), honest 0
+// (leader of round 1), 1 (leader of round 2), 3.  Member 0 decides A in round 1, member 1 decides B in round 3.
+func TestRefute(t *testing.T) {
+	const A, B = 7, 8
+	h := History{ID: 0, Kind: "refute-cmp-arbitrary", Nodes: 4, Fifo: 100, Off: 3, Byz: []int64{2}, CmpMix: true}
+	inBubble(t, &h, func(c *cluster) {
+		p0, p1, p3 := c.ps[0], c.ps[1], c.ps[3]
+		for _, p := range []*proc{p0, p1, p3} {
+			c.start(p)
+		}
+		c.giveInput(p0, A) // leader of round 1 proposes A
+		ppA := p0.bcasts[0]
+		c.giveInput(p1, B)
+		c.giveInput(p3, B)
+		c.deliver(p0, ppA, "CmpOk")
+		prep0 := p0.bcasts[0]
+		c.deliver(p1, ppA, "CmpOk")
+		prep1 := p1.bcasts[0]
+		c.deliver(p3, ppA, "CmpFail") // member 3 rejects A: compareFailureRound = 1
+		prepZ := M{T: 2, Src: 2, Rnd: 1, Val: A}
+		for _, p := range []*proc{p0, p1} {
+			c.deliver(p, prep0, "CmpOk")
+			c.deliver(p, prep1, "CmpOk")
+		}
+		c.deliver(p0, prepZ, "CmpOk") // quorum of PREPARE(1, A) at 0 -> COMMIT
+		com0 := p0.bcasts[0]
+		c.deliver(p1, prepZ, "CmpOk")
+		com1 := p1.bcasts[0]
+		comZ := M{T: 3, Src: 2, Rnd: 1, Val: A}
+		c.deliver(p0, com0, "CmpOk")
+		c.deliver(p0, com1, "CmpOk")
+		c.deliver(p0, comZ, "CmpOk") // 0 decides A; the Byzantine commit is withheld from 1
+		c.deliver(p1, com0, "CmpOk")
+		c.deliver(p1, com1, "CmpOk")
+		// round 2: 1 and 3 time out; 1 leads and re-proposes the prepared value A
+		c.timeout(p1)
+		rc1 := p1.bcasts[0]
+		c.timeout(p3)
+		rc3 := p3.bcasts[0]
+		rcZ := M{T: 4, Src: 2, Rnd: 2}
+		c.deliver(p1, rc1, "CmpOk")
+		c.deliver(p1, rc3, "CmpOk")
+		c.deliver(p1, rcZ, "CmpOk")
+		if len(p1.bcasts) != 1 || p1.bcasts[0].T != 1 {
+			t.Fatalf("leader of round 2 did not propose: %v", p1.outs)
+		}
+		pp2 := p1.bcasts[0]
+		c.deliver(p1, pp2, "CmpFail") // same member, same value A, other verdict: compareFailureRound = 2
+		c.deliver(p3, pp2, "CmpFail")
+		// round 3: Byzantine leader 2 proposes B without any justification
+		pp3 := M{T: 1, Src: 2, Rnd: 3, Val: B}
+		c.deliver(p1, pp3, "CmpOk")
+		prepB1 := p1.bcasts[0]
+		c.deliver(p3, pp3, "CmpOk")
+		prepB3 := p3.bcasts[0]
+		prepBZ := M{T: 2, Src: 2, Rnd: 3, Val: B}
+		for _, p := range []*proc{p1, p3} {
+			c.deliver(p, prepB1, "CmpOk")
+			c.deliver(p, prepB3, "CmpOk")
+		}
+		c.deliver(p1, prepBZ, "CmpOk")
+		comB1 := p1.bcasts[0]
+		c.deliver(p3, prepBZ, "CmpOk")
+		comB3 := p3.bcasts[0]
+		comBZ := M{T: 3, Src: 2, Rnd: 3, Val: B}
+		c.deliver(p1, comB1, "CmpOk")
+		c.deliver(p1, comB3, "CmpOk")
+		c.deliver(p1, comBZ, "CmpOk") // 1 decides B
+	})
+	if err := hx.WriteJSON("qbft_refute.json", []History{h}); err != nil {
+		t.Fatal(err)
+	}
 }
